@@ -6,6 +6,8 @@
 
 #pragma once
 
+#include <limits>
+#include <stdexcept>
 #include <type_traits>
 
 namespace covfie::utility {
@@ -25,10 +27,24 @@ T ipow(T i, T p)
 
     for (; p; p >>= 1) {
         if (p & 1) {
+            if (i > 0 && r > std::numeric_limits<T>::max() / i) {
+                throw std::overflow_error(
+                    "Integer power is not representable in its type."
+                );
+            }
+
             r *= i;
         }
 
-        i *= i;
+        if (p >> 1) {
+            if (i > 0 && i > std::numeric_limits<T>::max() / i) {
+                throw std::overflow_error(
+                    "Integer power is not representable in its type."
+                );
+            }
+
+            i *= i;
+        }
     }
 
     return r;
